@@ -32,7 +32,7 @@ ASSUMPTIONS = [
 ]
 REQUIRED_MONITORS = ["orbits", "orbit_cardinality", "event_cardinality", "conversions", "event_to_sample.weights",
                      "grow", "swap", "shrink", "clique.search", "c_0", "c_1", "resize", "subgraph.search",
-                     "sample.helpers", "clique.search:selection-rule"]
+                     "sample.helpers", "clique.search:selection-rule", "feature_vectors(sampling)"]
 
 
 # ---- harness-side reference implementations ------------------------------------------------------
@@ -417,6 +417,25 @@ def run_case(case, rep, mods, rng):
                 V("orbit_to_sample", "accepts-too-few-modes", "no error for modes < len(orbit)")
             except ValueError:
                 pass
+        # ---- empirical feature vectors: relative frequencies of orbits / events in a list of samples ---------------------------
+        rep.monitor("feature_vectors(sampling)")
+        k = len(s)
+        samples = [list(s)] + [[int(x) for x in rng.integers(0, 3, k)] for _ in range(int(rng.integers(3, 12)))]
+        if rng.random() < 0.5:
+            samples.append([int(x) for x in rng.permutation(s)])  # same orbit as s, other pattern
+        orbs = [list(orb) if orb else [1], [1, 1], [2], [2, 1], [1]]
+        orbs = [o for i, o in enumerate(orbs) if o not in orbs[:i]]
+        exp = [sum(1 for t in samples if sorted([x for x in t if x > 0], reverse=True) == sorted(o, reverse=True)) / len(samples) for o in orbs]
+        got = sim.feature_vector_orbits_sampling([list(t) for t in samples], [list(o) for o in orbs])
+        if len(got) != len(exp) or any(abs(a - b) > 1e-12 for a, b in zip(got, exp)):
+            V("feature_vector_orbits_sampling", "not-the-relative-frequencies", "orbits %s in %d samples: returned %s, counted %s" % (
+                orbs, len(samples), got, exp))
+        evs = sorted({sum(s), 1, 2, 3})
+        exp = [sum(1 for t in samples if sum(t) == n_ and max(t) <= maxc) / len(samples) for n_ in evs]
+        got = sim.feature_vector_events_sampling([list(t) for t in samples], list(evs), maxc)
+        if len(got) != len(exp) or any(abs(a - b) > 1e-12 for a, b in zip(got, exp)):
+            V("feature_vector_events_sampling", "not-the-relative-frequencies", "events %s (<= %d per mode) in %d samples: returned %s, counted %s" % (
+                evs, maxc, len(samples), got, exp))
         return
 
     if kind == "event_to_sample":
